@@ -128,6 +128,11 @@ func runCase(rep *vevid.Report, f *vevid.Flags, c Case) {
 		if err != nil {
 			return nil, err
 		}
+		// an empty sibling family first: the source family gets kv family id 2, the target families have id 1 - a record
+		// written into a target store under the source family's id does not survive the target's next open
+		if _, err := src.CreateFamily("09", famOpt); err != nil {
+			return nil, err
+		}
 		return src.CreateFamily("10", famOpt)
 	}
 	fam, err := openSrc()
